@@ -375,7 +375,15 @@ def build_unit_text(unit, xdir, specs, report):
 def run_unit(unit, xdir, specs, report, variant='main', extra_defs=(), log=print, timeout=600):
     """returns dict: {status: ok|infra, obligations: [...], seconds, cached}"""
     body, cmap, cflags = build_unit_text(unit, xdir, specs, report)
-    ghost_fp = sha(*[open(f, 'rb').read() for f in sorted(glob.glob(os.path.join(GHOST, '*')))])
+    # only the ghost headers this unit can include enter its cache key
+    gfiles = ['l0.h', 'l0_post.h']
+    if unit.get('bounded'):
+        gfiles += ['l0c.h', 'l0c_post.h', 'l0c_globals.c']
+    else:
+        gfiles += ['inv.h', 'inv2.h', 'l0_globals.c']
+        if 'WITH_SETS' in unit.get('defs', {}):
+            gfiles += ['l0_sets.h', 'l0_aset.h', 'inv_sets.h', 'inv_sets_gen.h']
+    ghost_fp = sha(*[open(os.path.join(GHOST, f), 'rb').read() for f in gfiles])
     flags = list(cflags) + list(extra_defs)
     key = sha(body, ghost_fp, ' '.join(flags), ' '.join(CBMC_FLAGS), unit['target'], ' '.join(unit.get('replace', [])), variant, str(unit.get('bounded', '')))[:24]
     udir = os.path.join(CACHE, 'u_' + key)
